@@ -283,6 +283,10 @@ type pathCtx struct {
 	viol      []Violation
 	assumes   map[string]bool
 
+	lastRecMsg   string
+	lastRecSite  string
+	lastRecStack []string
+
 	panicking  bool
 	panicSite  string
 	panicStack []string
@@ -770,7 +774,7 @@ func (c *pathCtx) recordPanic(e interface{}) {
 func panicMessage(e interface{}) string {
 	switch p := e.(type) {
 	case targetPanic:
-		return "panic: " + toString(p.v)
+		return "panic: " + p.String()
 	case error:
 		return "runtime error: " + strings.TrimPrefix(p.Error(), "runtime error: ")
 	case string:
